@@ -1,5 +1,6 @@
 import DryocVerif.Proofs.SecretBox
 import DryocVerif.Properties.C03
+import DryocVerif.Proofs.RawExtra
 /-
 C17 — a failed open releases nothing.
 
@@ -10,7 +11,8 @@ buffer afterwards is exactly the buffer before — no plaintext, partial or comp
 Rust function panics on a too-small buffer.)
 The object API has no out-buffer; for it we show that `Ok m` is returned only when the
 authenticator check passed, that it never panics, and (stream) that a rejected pull leaves the state
-as it was along the code-shaped path `objPullRaw`.
+as it was along the code-shaped paths `objPullRaw` (total `pull`, state threaded through the `?`) and
+`objPullCode` (statement-by-statement `pull`, state threaded through the `?`).
 Counter-models of the two repaired defects (`openDetachedInplaceOld`, `openDetachedOld`, `pullOld`) show
 what the theorems exclude.
 -/
@@ -316,6 +318,36 @@ theorem objPullRaw_err_keeps_state (P : Model.SecretStream.Prims) (s : Model.Sec
   rw [objPullRaw_eq_objPull] at h ⊢
   exact Proofs.SecretStream.objPull_err_state P s ct ad h
 
+/-- **the classic stream `pull`, statement by statement (`pullRaw`): on `Err` the state, the message buffer and
+the tag variable are unchanged** — every ciphertext length, the ≈ 256 GiB window of `C04.pullRaw_panics_near_max`
+included (there the outcome is `Err` or a panic, never a release).  Honest caveat: `pullRawWith` reports the
+caller's buffers on every `.err` of the body BY CONSTRUCTION (the model is written in source order and each
+`return Err` of the Rust precedes the first write), so what this theorem adds over that is only that no `Ok`
+body carries an `Err` verdict; a reordering of the tag write in the Rust is caught by the differential run. -/
+theorem pullRaw_failed_no_release (P : Model.SecretStream.Prims) (s : Model.SecretStream.State)
+    (m : Bytes) (tagv : UInt8) (ct ad : Bytes)
+    (h : (Model.SecretStream.pullRaw P s m tagv ct ad).res = .err) :
+    (Model.SecretStream.pullRaw P s m tagv ct ad).st = s ∧
+    (Model.SecretStream.pullRaw P s m tagv ct ad).buf = m ∧
+    (Model.SecretStream.pullRaw P s m tagv ct ad).tag = tagv :=
+  Proofs.SecretStream.pullRaw_err_untouched P s m tagv ct ad h
+
+/-- `DryocStream<Pull>::pull` statement by statement (`objPullCode`, which now threads the state the classic
+function left through the `?`, on every branch) is `objPullRaw`, for every ciphertext up to the crate's
+key-stream limit `64·(2^32 − 3) + 17` -/
+theorem objPullCode_eq_objPullRaw (P : Model.SecretStream.Prims) (s : Model.SecretStream.State) (ct ad : Bytes)
+    (h : ct.length ≤ Model.SecretStream.STREAM_BODY_MAX + 17) :
+    Model.SecretStream.objPullCode P s ct ad = Model.SecretStream.objPullRaw P s ct ad :=
+  Proofs.SecretStream.objPullCode_eq_objPullRaw P s ct ad h
+
+/-- a rejected `DryocStream::pull`, statement by statement, leaves the stream state as it was -/
+theorem objPullCode_err_keeps_state (P : Model.SecretStream.Prims) (s : Model.SecretStream.State) (ct ad : Bytes)
+    (hlen : ct.length ≤ Model.SecretStream.STREAM_BODY_MAX + 17)
+    (h : (Model.SecretStream.objPullCode P s ct ad).1 = .err) :
+    (Model.SecretStream.objPullCode P s ct ad).2 = s := by
+  rw [objPullCode_eq_objPullRaw P s ct ad hlen] at h ⊢
+  exact objPullRaw_err_keeps_state P s ct ad h
+
 /-- the same for `objPull` (there it holds by the shape of the definition; `objPullRaw_eq_objPull` is what
 ties that shape to the code) -/
 theorem objPull_err_keeps_state (P : Model.SecretStream.Prims) (s : Model.SecretStream.State) (ct ad : Bytes)
@@ -516,6 +548,14 @@ example : (Model.SecretStream.pull C03.toyP C03.toyS [9, 9, 9] 7 ([1, 2] ++ zero
 /-- `objPullRaw_err_keeps_state` / `objPull_err_keeps_state`: the same forged ciphertext at the object layer -/
 example : (Model.SecretStream.objPullRaw C03.toyP C03.toyS ([1, 2] ++ zeros 16) [0x42]).2 = C03.toyS :=
   objPullRaw_err_keeps_state C03.toyP C03.toyS _ _ (by decide)
+
+/-- `pullRaw_failed_no_release` / `objPullCode_err_keeps_state`: the same forged ciphertext through the
+statement-by-statement models -/
+example : (Model.SecretStream.pullRaw C03.toyP C03.toyS [9, 9, 9] 7 ([1, 2] ++ zeros 16) [0x42]).buf = [9, 9, 9] :=
+  (pullRaw_failed_no_release C03.toyP C03.toyS _ _ _ _ (by decide)).2.1
+
+example : (Model.SecretStream.objPullCode C03.toyP C03.toyS ([1, 2] ++ zeros 16) [0x42]).2 = C03.toyS :=
+  objPullCode_err_keeps_state C03.toyP C03.toyS _ _ (by decide) (by decide)
 
 /-- `objUnseal_err_of_mac_ne`: a sealed box with a forged tag -/
 example : objUnseal toyPrims ⟨some toyEsk, zeros 16, [1, 1, 1]⟩ toyRpk toyRsk = .err :=
